@@ -4,6 +4,7 @@ import ShellOp.Proofs.MetricsU
 import ShellOp.Proofs.MetricsSim
 import ShellOp.Proofs.MetricsSimU
 import ShellOp.Proofs.MetricsKey
+import ShellOp.Proofs.MetricsText
 /-!
 # C16 — hook metrics: validated as a batch; grouped metrics replaced, not accumulated
 
@@ -798,5 +799,125 @@ example : ShellOp.Trans.validateMetricOperation { name := 1, action := "observe"
     ∧ ShellOp.Trans.validateMetricOperation { name := 1, group := 2, action := "expire" } = 0
     ∧ ShellOp.Trans.validateOperations [{ name := 1, action := "set", value := some 3 }, { action := "add" }] = 1 := by
   decide
+
+/-! ## The text path: the metrics FILE a hook wrote (`Hook.Run` → `MetricOperationsFromFile`, then
+`handleRunHook` → `SendBatch`)
+
+"If any metric operation written by a hook is invalid, none is applied and the execution fails" is a
+statement about what the hook WROTE — bytes. `MetricsText.runFile` puts the byte-level model of the
+reader (`HookOutput.fromReader`, shared with C04) in front of `sendBatch`; `spells file ops` ties the
+typed operations to the documents the reader decodes (nothing is assumed about files it rejects). -/
+
+/-- Tie T1 for the reader: the loop of `MetricOperationsFromReader`, regenerated from the source on every
+run, ends quietly on `io.EOF` ONLY (what `HookOutput.decodeNext` calls `.eof`: nothing but blanks left)
+and returns every other error of `Decode` — `io.ErrUnexpectedEOF` of a cut-off document included
+(`.err`) — without any operation. -/
+theorem reader_loop_shape : Facts.c16ReaderLoop =
+    ["err := dec.Decode(&metricOperation)", "err == io.EOF", "break", "err != nil", "return nil, err"] := by
+  decide
+
+open ShellOp.MetricsText in
+/-- **C16.1 on the file `rejected_file_noop`**: for every store, hook and map order — a metrics file that
+is not a well-formed stream of documents that are ALL valid metric operations (`HookOutput.metricsOk`:
+a document that is not JSON, is cut off, has a field of the wrong type, a stray closer or text between
+documents, or an operation validation rejects) changes nothing in the store and fails the execution. -/
+theorem rejected_file_noop (st : State) (common : Labels) (file : List Char) (ops : List Op)
+    (order : List Nat) (hs : spells file ops = true) (hbad : HookOutput.metricsOk file = false) :
+    runFile st common file ops order = (st, false) := by
+  have hne : file.isEmpty = false := by
+    cases file with
+    | nil => simp [HookOutput.metricsOk] at hbad
+    | cons _ _ => rfl
+  rw [metricsOk_nonempty file hne] at hbad
+  unfold runFile fromFile
+  simp only [hne, Bool.false_eq_true, if_false]
+  unfold spells at hs
+  cases hf : HookOutput.fromReader file with
+  | none => rfl
+  | some ms =>
+    rw [hf] at hs hbad
+    have hv : validBatch ops = false := by
+      rw [← all_validOp_of_abstractsAll action_tables.2.1 action_tables.2.2 ms ops hs]
+      exact hbad
+    simp [sendBatch, hv]
+
+open ShellOp.MetricsText in
+/-- **`accepted_file_is_batch`**: a file the reader and the validation accept is exactly one valid batch:
+the execution does what `SendBatch` does with the operations the file spells (so every theorem above
+about `sendBatch` — replacement, untouched, refinement of the reference registry — speaks about it). -/
+theorem accepted_file_is_batch (st : State) (common : Labels) (file : List Char) (ops : List Op)
+    (order : List Nat) (hs : spells file ops = true) (hok : HookOutput.metricsOk file = true) :
+    runFile st common file ops order = sendBatch st common ops order ∧ validBatch ops = true := by
+  cases file with
+  | nil =>
+    have : ops = [] := by
+      unfold spells at hs
+      rw [fromReader_nil] at hs
+      cases ops with
+      | nil => rfl
+      | cons _ _ => simp [abstractsAll] at hs
+    subst this
+    exact ⟨rfl, rfl⟩
+  | cons c cs =>
+    have hne : (c :: cs).isEmpty = false := rfl
+    rw [metricsOk_nonempty _ hne] at hok
+    unfold runFile fromFile
+    simp only [hne, Bool.false_eq_true, if_false]
+    unfold spells at hs
+    cases hf : HookOutput.fromReader (c :: cs) with
+    | none => rw [hf] at hok; cases hok
+    | some ms =>
+      rw [hf] at hs hok
+      refine ⟨rfl, ?_⟩
+      rw [← all_validOp_of_abstractsAll action_tables.2.1 action_tables.2.2 ms ops hs]
+      exact hok
+
+open ShellOp.MetricsText ShellOp.HookOutput in
+/-- **`cut_off_file_noop`**: whatever the hook wrote first — any number of complete, decodable documents
+(`Reaches file rest`) — if the reader then stands before bytes that are not blanks only and not a complete
+JSON value (a last operation that is cut off in the middle, a stray closer, garbage), NONE of the complete
+operations before it is applied and the execution fails. No hypothesis about the operations. -/
+theorem cut_off_file_noop (st : State) (common : Labels) (file rest : List Char) (ops : List Op)
+    (order : List Nat) (hr : Reaches file rest) (he : decodeNext rest = .err) :
+    runFile st common file ops order = (st, false) := by
+  have hne : file.isEmpty = false := by
+    cases file with
+    | nil =>
+      have := not_reaches_nil hr
+      subst this
+      simp [decodeNext, skipWs] at he
+    | cons _ _ => rfl
+  unfold runFile fromFile
+  simp only [hne, Bool.false_eq_true, if_false]
+  have : HookOutput.fromReader file = none := loop_none_of_err hr he (file.length + 1)
+  rw [this]
+
+/-- A two-operation file, the typed operations it spells, and every way of cutting it off: exactly the
+cuts at the end of a document (and the empty file) are accepted — a cut inside the second document
+rejects the first one too. -/
+def exampleFile : List Char := "{\"name\":\"m\",\"set\":1}\n{\"name\":\"n\",\"add\":2}".toList
+
+def exampleOps : List Op :=
+  [{ name := 2, action := "set", value := some 2, set := some 2 },
+   { name := 3, action := "add", value := some 4, add := some 4 }]
+
+open ShellOp.MetricsText in
+example : spells exampleFile exampleOps = true ∧ HookOutput.metricsOk exampleFile = true
+    ∧ (runFile {} [(1, 7)] exampleFile exampleOps []).2 = true
+    ∧ HookOutput.metricsOk (exampleFile.take 30) = false
+    ∧ runFile {} [(1, 7)] (exampleFile.take 30) exampleOps [] = ({}, false)
+    ∧ spells (exampleFile.take 21) (exampleOps.take 1) = true
+    ∧ HookOutput.metricsOk (exampleFile.take 21) = true
+    ∧ (runFile {} [(1, 7)] (exampleFile.take 21) (exampleOps.take 1) []).2 = true := by decide
+
+example : (List.range exampleFile.length).all (fun n =>
+    HookOutput.metricsOk (exampleFile.take n) == (n == 0 || n == 20 || n == 21)) = true := by decide
+
+open ShellOp.HookOutput in
+/-- The hypotheses of `cut_off_file_noop` are met by the example file cut inside its second document. -/
+example : Reaches (exampleFile.take 30) ((exampleFile.take 30).drop 20) ∧
+    decodeNext ((exampleFile.take 30).drop 20) = .err :=
+  ⟨.doc _ (.obj [("name".toList, .str "m".toList), ("set".toList, .num)]) _ _ rfl (by decide) rfl
+    (.refl _), rfl⟩
 
 end ShellOp.Metrics.C16
